@@ -1,9 +1,9 @@
 SPECIFICATION GSpec
 CONSTANTS
-  File <- FilesC
-  FDataSeq <- DataC
-  FOther <- OtherC
-  FSplit <- SplitC
+  File <- FilesI
+  FDataSeq <- DataI
+  FOther <- OtherI
+  FSplit <- SplitI
   Caps <- GenCaps
 INVARIANT EmitFull
 CHECK_DEADLOCK FALSE
